@@ -320,6 +320,258 @@ theorem specEstimate_add (cU cA cB : Counts) (hU : (Counts.keys cU).Nodup) (hA :
 
 end
 
+/-! ### `Estimate` on a dictionary whose names are the union of two others' (C04) -/
+
+section
+variable (lib : Lib) (s : String)
+
+theorem specMissing_mem (c : Counts) (g : String) :
+    g ∈ specMissing lib s c ↔ g ∈ Counts.keys c ∧ corrOf lib s g = none := by
+  unfold specMissing Counts.keys
+  rw [List.mem_filter]
+  simp only [Option.isNone_iff_eq_none]
+
+theorem specMissing_union (cU cA cB : Counts)
+    (hk : ∀ k, k ∈ Counts.keys cU ↔ k ∈ Counts.keys cA ∨ k ∈ Counts.keys cB) (g : String) :
+    g ∈ specMissing lib s cU ↔ g ∈ specMissing lib s cA ∨ g ∈ specMissing lib s cB := by
+  rw [specMissing_mem, specMissing_mem, specMissing_mem, hk]
+  tauto
+
+theorem specMissing_isEmpty_union (cU cA cB : Counts)
+    (hk : ∀ k, k ∈ Counts.keys cU ↔ k ∈ Counts.keys cA ∨ k ∈ Counts.keys cB) :
+    (specMissing lib s cU).isEmpty = ((specMissing lib s cA).isEmpty && (specMissing lib s cB).isEmpty) := by
+  rw [Bool.eq_iff_iff, Bool.and_eq_true, List.isEmpty_iff, List.isEmpty_iff, List.isEmpty_iff,
+    List.eq_nil_iff_forall_not_mem, List.eq_nil_iff_forall_not_mem, List.eq_nil_iff_forall_not_mem]
+  constructor
+  · intro h
+    exact ⟨fun g hg => h g ((specMissing_union lib s cU cA cB hk g).mpr (Or.inl hg)),
+      fun g hg => h g ((specMissing_union lib s cU cA cB hk g).mpr (Or.inr hg))⟩
+  · rintro ⟨h1, h2⟩ g hg
+    rcases (specMissing_union lib s cU cA cB hk g).mp hg with h | h
+    · exact h1 g h
+    · exact h2 g h
+
+theorem allBasis_keys (basis : List String) (c : Counts) :
+    c.all (fun g => decide (g.1 ∈ basis)) = true ↔ ∀ k ∈ Counts.keys c, k ∈ basis := by
+  rw [List.all_eq_true]
+  unfold Counts.keys
+  simp only [decide_eq_true_eq, List.mem_map, forall_exists_index, and_imp, forall_apply_eq_imp_iff₂]
+
+theorem allBasis_union (basis : List String) (cU cA cB : Counts)
+    (hk : ∀ k, k ∈ Counts.keys cU ↔ k ∈ Counts.keys cA ∨ k ∈ Counts.keys cB) :
+    cU.all (fun g => decide (g.1 ∈ basis)) =
+      (cA.all (fun g => decide (g.1 ∈ basis)) && cB.all (fun g => decide (g.1 ∈ basis))) := by
+  rw [Bool.eq_iff_iff, Bool.and_eq_true, allBasis_keys, allBasis_keys, allBasis_keys]
+  constructor
+  · intro h
+    exact ⟨fun k hk' => h k ((hk k).mpr (Or.inl hk')), fun k hk' => h k ((hk k).mpr (Or.inr hk'))⟩
+  · rintro ⟨h1, h2⟩ k hk'
+    rcases (hk k).mp hk' with h | h
+    · exact h1 k h
+    · exact h2 k h
+
+theorem termsOf_range_mem (c : Counts) (r : Option (Rat × Rat)) :
+    r ∈ (termsOf lib s c).map (·.1.range) ↔ ∃ k ∈ Counts.keys c, (corrD lib s k).range = r := by
+  unfold termsOf Counts.keys
+  simp only [List.map_map, List.mem_map, Function.comp, exists_exists_and_eq_and]
+
+/-- the common range over the union's names is the intersection of the parts' common ranges -/
+theorem commonRange_termsOf_union (cU cA cB : Counts)
+    (hk : ∀ k, k ∈ Counts.keys cU ↔ k ∈ Counts.keys cA ∨ k ∈ Counts.keys cB) :
+    commonRange (termsOf lib s cU) = interRange (commonRange (termsOf lib s cA)) (commonRange (termsOf lib s cB)) := by
+  apply commonRange_union
+  intro r
+  rw [termsOf_range_mem, termsOf_range_mem, termsOf_range_mem]
+  constructor
+  · rintro ⟨k, hk', hr⟩
+    rcases (hk k).mp hk' with h | h
+    · exact Or.inl ⟨k, h, hr⟩
+    · exact Or.inr ⟨k, h, hr⟩
+  · rintro (⟨k, hk', hr⟩ | ⟨k, hk', hr⟩)
+    · exact ⟨k, (hk k).mpr (Or.inl hk'), hr⟩
+    · exact ⟨k, (hk k).mpr (Or.inr hk'), hr⟩
+
+end
+
+/-- the range of an estimate is the common range of the mapping's terms -/
+theorem estimate_range (reg : List String) (lib : Lib) (c : Counts) (s : String) (e : Estimator)
+    (he : estimate reg lib c s = .ok e) : e.range = commonRange (termsOf lib s c) ∧ e.correlations = termsOf lib s c := by
+  obtain ⟨_, _, hc⟩ := (estimate_ok_iff reg lib c s e).mp he
+  obtain ⟨h1, _, h3⟩ := construct_ok lib s c e hc
+  have := terms_eq_map lib s c _ (collect_ok lib s c _ h1)
+  exact ⟨by rw [h3, this]; rfl, this⟩
+
+/-- How the outcomes of the parts combine (precedence of the stages of `Estimate`); `r` = what the range assertion says of
+the intersection of the parts' common ranges. -/
+def mixKind (kA kB : Option EstKind) (r : Option EstKind) : Option EstKind :=
+  if kA = some .invalidSet ∨ kB = some .invalidSet then some .invalidSet
+  else if kA = some .missing ∨ kB = some .missing then some .missing
+  else if kA = some .notInBasis ∨ kB = some .notInBasis then some .notInBasis
+  else if kA = some .shape ∨ kB = some .shape then some .shape
+  else r
+
+/-- the range assertion on an already computed common range -/
+def rangeKindOf (r : Option (Rat × Rat)) : Option EstKind :=
+  match r with
+  | none => none
+  | some (lo, hi) => if lo ≤ hi then none else some .emptyRange
+
+theorem rangeKind_eq (cs : List (Corr × Rat)) : rangeKind cs = rangeKindOf (commonRange cs) := rfl
+
+theorem rangeKindOf_cases (r : Option (Rat × Rat)) : rangeKindOf r = none ∨ rangeKindOf r = some .emptyRange := by
+  unfold rangeKindOf
+  rcases r with _ | ⟨lo, hi⟩
+  · exact Or.inl rfl
+  · by_cases h : lo ≤ hi <;> simp [h]
+
+/-- **`Estimate` on a union of names.** -/
+theorem outcomeKind_union (reg : List String) (lib : Lib) (s : String) (cU cA cB : Counts)
+    (hk : ∀ k, k ∈ Counts.keys cU ↔ k ∈ Counts.keys cA ∨ k ∈ Counts.keys cB) :
+    outcomeKind reg lib cU s = mixKind (outcomeKind reg lib cA s) (outcomeKind reg lib cB s)
+      (rangeKindOf (interRange (commonRange (termsOf lib s cA)) (commonRange (termsOf lib s cB)))) := by
+  unfold outcomeKind uqKind
+  rw [specMissing_isEmpty_union lib s cU cA cB hk, rangeKind_eq, commonRange_termsOf_union lib s cU cA cB hk]
+  generalize rangeKindOf (interRange (commonRange (termsOf lib s cA)) (commonRange (termsOf lib s cB))) = rU
+  rw [rangeKind_eq, rangeKind_eq]
+  have hA := rangeKindOf_cases (commonRange (termsOf lib s cA))
+  have hB := rangeKindOf_cases (commonRange (termsOf lib s cB))
+  generalize rangeKindOf (commonRange (termsOf lib s cA)) = rA at hA ⊢
+  generalize rangeKindOf (commonRange (termsOf lib s cB)) = rB at hB ⊢
+  cases hu : lib.uq with
+  | none =>
+    simp only
+    rcases hA with rfl | rfl <;> rcases hB with rfl | rfl <;>
+      cases reg.contains s <;> cases (specMissing lib s cA).isEmpty <;> cases (specMissing lib s cB).isEmpty <;>
+      simp [mixKind]
+  | some u =>
+    simp only
+    rw [allBasis_union u.basis cU cA cB hk]
+    rcases hA with rfl | rfl <;> rcases hB with rfl | rfl <;>
+      cases reg.contains s <;> cases (specMissing lib s cA).isEmpty <;> cases (specMissing lib s cB).isEmpty <;>
+      cases cA.all (fun g => decide (g.1 ∈ u.basis)) <;> cases cB.all (fun g => decide (g.1 ∈ u.basis)) <;>
+      cases shapeOK u.basis.length u.mat <;>
+      simp [mixKind]
+
+/-! ### the count vector of the uncertainty block and the quadratic form -/
+
+theorem counts_lookup_get (c : Counts) (k : String) :
+    (match c.lookup k with | some n => n | none => 0) = c.get k := by
+  induction c with
+  | nil => rfl
+  | cons p c ih =>
+    obtain ⟨k0, v0⟩ := p
+    by_cases h : k0 = k
+    · subst h; simp [List.lookup, Counts.get]
+    · have h' : (k == k0) = false := by
+        rw [beq_eq_false_iff_ne]; exact fun e => h e.symm
+      simp only [List.lookup, h', Counts.get, h, if_false]
+      exact ih
+
+/-- entry `i` of the count vector is the count the dictionary gives the `i`-th basis descriptor -/
+theorem specX_counts (basis : List String) (c : Counts) : specX basis c = basis.map c.get := by
+  unfold specX
+  apply List.map_congr_left
+  intro b _
+  exact counts_lookup_get c b
+
+/-- `xᵀ M y`, `M` given by rows -/
+def specBilin (M : List (List Rat)) (x y : List Rat) : Rat :=
+  (List.zipWith (fun xi row => xi * specDot row y) x M).sum
+
+/-- entrywise sum of two vectors -/
+def vplus (x y : List Rat) : List Rat := List.zipWith (· + ·) x y
+
+theorem specQuad_eq_bilin (M : List (List Rat)) (x : List Rat) : specQuad M x = specBilin M x x := rfl
+
+theorem specDot_vplus_right (row x y : List Rat) (h : x.length = y.length) :
+    specDot row (vplus x y) = specDot row x + specDot row y := by
+  induction row generalizing x y with
+  | nil => simp [specDot]
+  | cons r row ih =>
+    cases x with
+    | nil =>
+      cases y with
+      | nil => simp [specDot, vplus]
+      | cons b y => simp at h
+    | cons a x =>
+      cases y with
+      | nil => simp at h
+      | cons b y =>
+        have h' : x.length = y.length := by simpa using h
+        have := ih x y h'
+        simp only [specDot, vplus, List.zipWith_cons_cons, List.sum_cons] at this ⊢
+        rw [this]; ring
+
+theorem specBilin_vplus_left (M : List (List Rat)) (x y z : List Rat) (h : x.length = y.length) :
+    specBilin M (vplus x y) z = specBilin M x z + specBilin M y z := by
+  induction M generalizing x y with
+  | nil => simp [specBilin]
+  | cons row M ih =>
+    cases x with
+    | nil =>
+      cases y with
+      | nil => simp [specBilin, vplus]
+      | cons b y => simp at h
+    | cons a x =>
+      cases y with
+      | nil => simp at h
+      | cons b y =>
+        have h' : x.length = y.length := by simpa using h
+        have := ih x y h'
+        simp only [specBilin, vplus, List.zipWith_cons_cons, List.sum_cons] at this ⊢
+        rw [this]; ring
+
+theorem specBilin_vplus_right (M : List (List Rat)) (x y z : List Rat) (h : y.length = z.length) :
+    specBilin M x (vplus y z) = specBilin M x y + specBilin M x z := by
+  induction M generalizing x with
+  | nil => simp [specBilin]
+  | cons row M ih =>
+    cases x with
+    | nil => simp [specBilin]
+    | cons a x =>
+      have := ih x
+      simp only [specBilin, List.zipWith_cons_cons, List.sum_cons] at this ⊢
+      rw [this, specDot_vplus_right row y z h]; ring
+
+/-- **the quadratic form of a sum**: `(x+y)ᵀM(x+y) = xᵀMx + yᵀMy + xᵀMy + yᵀMx` -/
+theorem specQuad_vplus (M : List (List Rat)) (x y : List Rat) (h : x.length = y.length) :
+    specQuad M (vplus x y) = specQuad M x + specQuad M y + specBilin M x y + specBilin M y x := by
+  rw [specQuad_eq_bilin, specQuad_eq_bilin, specQuad_eq_bilin, specBilin_vplus_left M x y _ h,
+    specBilin_vplus_right M x x y h, specBilin_vplus_right M y x y h]
+  ring
+
+/-- the count vector is additive in the counts -/
+theorem specX_add (basis : List String) (cU cA cB : Counts) (hg : ∀ k, cU.get k = cA.get k + cB.get k) :
+    specX basis cU = vplus (specX basis cA) (specX basis cB) := by
+  rw [specX_counts, specX_counts, specX_counts]
+  unfold vplus
+  rw [List.zipWith_map_left, List.zipWith_map_right]
+  induction basis with
+  | nil => rfl
+  | cons b basis ih => simp [hg b, ih]
+
+/-! ### a datum of the estimate of a union of names with added counts -/
+
+theorem forall_entries_iff_keys (c : Counts) (P : String → Prop) : (∀ g ∈ c, P g.1) ↔ ∀ k ∈ Counts.keys c, P k := by
+  unfold Counts.keys
+  simp only [List.mem_map, forall_exists_index, and_imp, forall_apply_eq_imp_iff₂]
+
+theorem wsum_union (get : Corr → Val) (reg : List String) (lib : Lib) (s : String) (cU cA cB : Counts)
+    (eU eA eB : Estimator) (hU : (Counts.keys cU).Nodup) (hA : (Counts.keys cA).Nodup) (hB : (Counts.keys cB).Nodup)
+    (hg : ∀ k, cU.get k = cA.get k + cB.get k)
+    (hk : ∀ k, k ∈ Counts.keys cU ↔ k ∈ Counts.keys cA ∨ k ∈ Counts.keys cB)
+    (heU : estimate reg lib cU s = .ok eU) (heA : estimate reg lib cA s = .ok eA) (heB : estimate reg lib cB s = .ok eB)
+    (v : Rat) :
+    wsum get eU.correlations = .ok v ↔
+      ∃ x y, wsum get eA.correlations = .ok x ∧ wsum get eB.correlations = .ok y ∧ v = x + y := by
+  simp only [C01_value_iff get reg lib _ s _ heU, C01_value_iff get reg lib _ s _ heA, C01_value_iff get reg lib _ s _ heB,
+    forall_entries_iff_keys, specEstimate_add lib s get cU cA cB hU hA hB hg]
+  constructor
+  · rintro ⟨h, rfl⟩
+    exact ⟨_, _, ⟨fun k hk' => h k ((hk k).mpr (Or.inl hk')), rfl⟩, ⟨fun k hk' => h k ((hk k).mpr (Or.inr hk')), rfl⟩, rfl⟩
+  · rintro ⟨x, y, ⟨h1, rfl⟩, ⟨h2, rfl⟩, rfl⟩
+    exact ⟨fun k hk' => ((hk k).mp hk').elim (h1 k) (h2 k), rfl⟩
+
 /-! ### the library's record of the decomposed molecule only names the estimate -/
 
 /-- the estimate with another molecule on record -/
